@@ -159,6 +159,7 @@ def bin_variant(c, k, tmp):
     b["evy"] = common.EVY
     b["tmp"] = tmp
     b["stdin"] = (k % 3 == 0)
+    b["out"] = ("stdout", "longer", "fresh", "shorter", "stdout")[k % 5]
     b["timeoutMs"] = 60000
     b["cpuSecs"] = 4
     if k % 2 == 0:
